@@ -728,12 +728,22 @@ fn run_live(c: &[Val], expect: &[Val]) -> Val {
     Val::L(out)
 }
 
+/// is there a thread named as ConfigReloader::start names the refresh thread?
+fn refresh_thread_alive() -> bool {
+    match std::fs::read_dir("/proc/self/task") {
+        Ok(rd) => rd.flatten().any(|e| {
+            std::fs::read_to_string(e.path().join("comm")).map(|c| c.trim_end() == "log4rs refresh").unwrap_or(false)
+        }),
+        Err(_) => true,
+    }
+}
+
 /// child process, kind 6: the real `init_file` and the real refresh thread, polled in lock step.
 /// The `reloader_sleep` hook (commit f2da538) replaces the thread's sleep: the thread reports the
 /// interval it wants to sleep and blocks until this driver has made the next edit.  Observed per edit:
-/// (stopped, interval asked for after the poll (ms), active configuration, #set_config).  When the
-/// MODEL says the thread goes on, the driver waits (up to 20 s) for the thread's next request; when the
-/// model says the thread has stopped, the driver gives a wrongly surviving thread 300 ms to show up.
+/// (stopped, interval asked for after the poll (ms), active configuration, #set_config).  A poll
+/// is over when the thread asks to sleep again or when it has ended (no task named "log4rs refresh" is left in
+/// /proc/self/task): no time-out decides anything (a 20 s watchdog bounds a thread that does neither).
 /// `link` = 1: the path given to init_file is a symbolic link, every edit writes a new file and
 /// re-points the link (deletion removes the link).
 fn run_live2(c: &[Val], expect: &[Val]) -> Val {
@@ -798,13 +808,27 @@ fn run_live2(c: &[Val], expect: &[Val]) -> Val {
             edit(st.l());
         }
         let mut asked = 0u128;
+        let _ = ex;
         if running {
             let _ = tx_rel.send(());
-            let model_stops = ex.l()[1].n() == 1;
-            let wait = if model_stops { Duration::from_millis(300) } else { Duration::from_secs(20) };
-            match rx_req.recv_timeout(wait) {
-                Ok(d) => asked = d.as_millis(),
-                Err(_) => running = false,
+            // the poll is over when the thread asks to sleep again, or when it is gone (no task of this process
+            // is named "log4rs refresh" any more): both are positive signals, the 20 s bound is only a watchdog
+            let deadline = Instant::now() + Duration::from_secs(20);
+            loop {
+                match rx_req.recv_timeout(Duration::from_millis(2)) {
+                    Ok(d) => {
+                        asked = d.as_millis();
+                        break;
+                    }
+                    Err(_) => {
+                        if !refresh_thread_alive() || Instant::now() > deadline {
+                            // a request sent just before the thread went away cannot exist: the thread blocks
+                            // in the hook until released
+                            running = false;
+                            break;
+                        }
+                    }
+                }
             }
         } else {
             std::thread::sleep(Duration::from_millis(20));
